@@ -186,16 +186,6 @@ theorem C10_error_attribute (env : Env) (s : FStack) (fs : Frames) (name : Nat) 
 
 /-! ### The serialisation run -/
 
-theorem ownEvent_startTagOpen {inScope : List (Nat × Nat)} {b : Bool} {n : Tree} {name : Nat}
-    (h : OwnEvent inScope b n (.startTagOpen name)) : n.value = .element name := by
-  unfold OwnEvent edgeStart edgeEnd at h
-  cases hv : n.value <;> simp [hv] at h
-  rcases h with h1 | h1
-  · rw [h1]
-  · have h2 := h1.2
-    unfold extraPrefixes at h2
-    simp at h2
-
 /-- Traversal invariant: whenever the run reaches an event of node `p = start ++ rel` holding the
     stack `s`, then `s` stands for the frames of the open nodes from the start node down to `p`
     (without `p`'s own frame before its `StartTagOpen`), on top of the scope in force at the start
